@@ -101,7 +101,7 @@ class C11(Check):
                 # of 257-400 items, 300-1000 groups, day-scale time_split timeouts) on streams of ~700 items
                 if (k // 700) % 3 == 2:
                     cfg = {'active': rng.choice([None, 86400, 90000, 604800]), 'inactive': rng.choice([None, 86400, 172800]),
-                           'closing': rng.choice([None, 'modeq:7:0']), 'include': rng.random() < 0.5, 'time': 'dt'}
+                           'closing': rng.choice([None, 'modeq:7:0']), 'include': rng.random() < 0.5, 'time': rng.choice(['dt', 'dtz'])}
                     t, items = 0, []
                     for _ in range(rng.choice([10, 60])):
                         t += rng.choice([0, 1, 3600, 86399, 86400, 86401, 172800, 31536000, 90000])
